@@ -267,7 +267,7 @@ impl<T: Default + Reset + Traceable> Drop for Gc<T> {
         // SAFETY: Check if space is still alive BEFORE accessing ptr.
         // If space is dropped, the GcBox memory is freed and ptr is dangling.
         // This happens during interpreter shutdown when Gc fields outlive the heap.
-        let Some(space_rc) = self.space.upgrade() else {
+        let Some(_space_rc) = self.space.upgrade() else {
             return; // Space is gone, ptr is dangling - do nothing
         };
 
@@ -288,15 +288,13 @@ impl<T: Default + Reset + Traceable> Drop for Gc<T> {
         if count > 0 {
             gc_box.ref_count.set(count - 1);
         }
-        // If ref_count is 0, reset and pool the object immediately
-        if gc_box.ref_count.get() == 0 {
-            // Try to borrow - if already borrowed (e.g., during GC), skip pooling
-            if let Ok(mut space) = space_rc.try_borrow_mut() {
-                // Reset to clear references before pooling
-                gc_box.data.borrow_mut().reset();
-                space.pool_object(gc_box.index, self.ptr);
-            }
-        }
+        // A count of 0 must NOT reset or pool the object here.  Every live object
+        // carries the extra count taken by `Guard::alloc`, so the count can only
+        // reach 0 through stale handles: `Gc`s to a slot that was swept and then
+        // handed out again.  Resetting on their drop destroyed the new tenant while
+        // it was still reachable from a live guard.  Unreachable objects are
+        // reclaimed by `sweep` (see the type-level docs: "collected by the GC when
+        // unreachable, not when ref_count hits 0").
     }
 }
 
